@@ -1,5 +1,7 @@
 SPECIFICATION SSpec
 CONSTANT ND = 3
+CONSTANT FireOuts = {"ok", "err", "berr", "acan"}
+CONSTANT RaiseKinds = {"err", "berr", "acan", "cancelled"}
 CONSTANT NG = 3
 CONSTANT MaxLevel = 100
 CONSTANT Depth = 24
